@@ -360,7 +360,32 @@ func c28Marker(s string) {
 	}
 }
 
+// c28NormNums turns the float64 that encoding/json produced for whole numbers back into int64, so that the
+// YAML written for the child says `4294967296`, not `4.294967296e+09`.
+func c28NormNums(v any) any {
+	switch x := v.(type) {
+	case map[string]any:
+		out := map[string]any{}
+		for k, c := range x {
+			out[k] = c28NormNums(c)
+		}
+		return out
+	case []any:
+		out := make([]any, len(x))
+		for i, c := range x {
+			out[i] = c28NormNums(c)
+		}
+		return out
+	case float64:
+		if x == float64(int64(x)) && x > -9.2e18 && x < 9.2e18 {
+			return int64(x)
+		}
+	}
+	return v
+}
+
 func c28LoadConfig(dir string, samplers map[string]any) (config.Config, error) {
+	samplers, _ = c28NormNums(samplers).(map[string]any)
 	main := "General:\n  ConfigurationVersion: 2\nRefineryTelemetry:\n  AddRuleReasonToTrace: true\n"
 	rules := map[string]any{"RulesVersion": 2, "Samplers": samplers}
 	rb, err := yaml.Marshal(rules)
